@@ -7,7 +7,7 @@ from concurrent.futures import ThreadPoolExecutor
 
 REPO = os.environ.get("VERIF_REPO", "/repo")
 VERIF = os.path.dirname(os.path.dirname(os.path.abspath(__file__)))
-BUILD = os.path.join(VERIF, ".build")
+BUILD = os.path.join(VERIF, ".build" if REPO == "/repo" else ".build-" + hashlib.sha1(REPO.encode()).hexdigest()[:8])
 GUARD = "TBOX_VERIF_HOOKS"
 
 MODULES = ["base", "util", "event", "eventx", "log", "network", "terminal", "main",
